@@ -140,7 +140,34 @@ def check_source(src, case=None, ch=None, avoid=(), stats=None):
         except Exception as e:
             raise Violation('loading/echoing (%s chunking) raised %r -- %s' % (how, e, show(src, 120)), case, 'raises')
         compare(src, out, case, how)
+    echo_after_other_writer(src, case, ch)
     return ref
+
+
+OTHER_WRITERS = (('PureLuaWriter', {}), ('LuaMinifyTokenWriter', {}), ('LuaFormatterWriter', {'indentwidth': 2}),
+                 ('LuaASTEchoWriter', {}))
+
+
+def echo_after_other_writer(src, case, ch=None):
+    """A cart object whose code was listed/minified/formatted (to a string) and is then written with the default
+    writer: "every cart write with the default writer" still has to reproduce the source."""
+    from pico8.lua import lua as plua
+    try:
+        l = plua.Lua.from_lines([src], version=8)
+    except Exception:
+        return
+    which = OTHER_WRITERS if ch is None else [OTHER_WRITERS[(len(src) + src[:1][0] if src else 0) % 4]]
+    for name, args in which:
+        try:
+            b''.join(l.to_lines(writer_cls=getattr(plua, name), writer_args=dict(args)))
+        except Exception:
+            pass          # (whether that writer copes with the program is not this property's business)
+        try:
+            out = b''.join(l.to_lines())
+        except Exception as e:
+            raise Violation('default writer raised %r after %s ran on the same Lua object -- %s' % (e, name, show(src, 120)),
+                            case, 'raises')
+        compare(src, out, case, 'default writer after %s ran on the same object' % name)
 
 
 def nontrivial(ref):
